@@ -116,6 +116,7 @@ struct DbOptions {               // owns the objects an ldb_dbopt_t points to
   DbOptions();
   ~DbOptions();
   void set(const Config &c, bool create_if_missing = true);
+  bool default_info_log = false;   // true: pass info_log = NULL so that lcdb opens and rotates its own LOG / LOG.old
   DbOptions(const DbOptions &) = delete;
   DbOptions &operator=(const DbOptions &) = delete;
 };
